@@ -19,7 +19,7 @@ def showParse : ParseOut → String
 /-- the instance of the third-party primitives the driver runs the model with: reference float
     printing, the reference glob matcher, identity for `from_utf8_lossy` (inputs are checked to be
     valid UTF-8), no timestamps (events containing one are out of the model). -/
-def E : Env := { F := F, R := Glob.engine, lossy := id, tsText := fun _ => [] }
+def E : Env := Env.ref
 
 def validUtf8 : List Nat → Bool
   | [] => true
